@@ -166,6 +166,13 @@ def run_unit(unit, repo='/repo', rlimit=20, extra_opts=(), timeout=600):
             del res['functions'][a['at']]
             res.setdefault('contract_only', []).append(a['at'])
     hard = []
+    rustc_errors = [d for d in diags if d.get('level') == 'error' and d.get('code')]
+    if rustc_errors or (vr.get('verified', 0) + vr.get('errors', 0) == 0 and any(d.get('level') == 'error' for d in diags)):
+        msgs = [d.get('message', '') for d in diags if d.get('level') == 'error' and 'aborting' not in d.get('message', '')]
+        res.update(status='undecided', reason='the woven unit no longer compiles (contract overlay vs. changed source: '
+                   'type/resolution error, not a verification result): ' + ' | '.join(msgs[:3]))
+        res['diagnostics'] = [d.get('rendered', '')[:1500] for d in diags if d.get('level') == 'error'][:6]
+        return res
     for d in diags:
         if d.get('level') != 'error' or not d.get('spans'):
             if d.get('level') == 'error' and 'aborting' not in d.get('message', ''):
